@@ -174,7 +174,7 @@ func expect(c Case) (string, string) {
 			}
 		}
 		if b.Resp != "" {
-			fds := ref.ResolvePath(md, strings.Split(b.Resp, ".")) // output type == Req
+			fds := ref.ResolvePath(route.RspDesc(w), strings.Split(b.Resp, ".")) // the response type, which is not the request type
 			if fds == nil {
 				set(reject, "unresolvable response_body selector "+b.Resp)
 			} else if l := fds[len(fds)-1]; l.Message() == nil || l.IsList() || l.IsMap() {
@@ -447,8 +447,8 @@ func genCase(t *rapid.T) Case {
 		f := rapid.SampledFrom([]string{"nope", "name.id", "Name", "sub.nope", "sub.inner.id.x", "tags", "sub", "page_size", "pageSize", "labels", "labels.key", "labels.value", "subs.key", "subs.value.name", "subs.value.inner.id"}).Draw(t, "ff")
 		c.New[pick].Tmpl = "/" + rapid.SampledFrom(c16Lits).Draw(t, "fl") + "/{" + f + "}"
 	case "selector":
-		c.New[pick].Body = rapid.SampledFrom([]string{"", "*", "sub", "sub.inner", "nope", "sub.nope", "name", "tags", "*", "subs", "subs.value", "subs.value.inner", "labels.value"}).Draw(t, "body")
-		c.New[pick].Resp = rapid.SampledFrom([]string{"", "sub", "sub.inner", "nope", "sub.nope", "name", "", "subs.value", "labels"}).Draw(t, "resp")
+		c.New[pick].Body = rapid.SampledFrom([]string{"", "*", "sub", "sub.inner", "nope", "sub.nope", "name", "tags", "*", "subs", "subs.value", "subs.value.inner", "labels.value", "req_only", "rsp_only"}).Draw(t, "body")
+		c.New[pick].Resp = rapid.SampledFrom([]string{"", "sub", "sub.inner", "nope", "sub.nope", "name", "", "subs.value", "labels", "rsp_only", "rsp_only.inner", "req_only", "req_only.inner"}).Draw(t, "resp")
 	case "nested":
 		for len(c.New) < 3 {
 			c.New = append(c.New, valid())
